@@ -137,12 +137,23 @@ func versionFor(id, name string, a, jsonBackend bool) detection.Signature {
 }
 
 var openMu sync.Mutex
+var opens int
 
 func openMem(path string) (*pebbledb.PebbleScanner, error) {
 	openMu.Lock()
 	defer openMu.Unlock()
 	fs := vfs.NewMem()
-	pebbledb.VerifOptionsHook = func(o *pebble.Options) { o.FS = fs }
+	// every other store gets a tiny memtable: flushes (and with them the point at which
+	// tombstones meet the values they cover) then happen many times inside one history
+	opens++
+	small := opens%2 == 0
+	pebbledb.VerifOptionsHook = func(o *pebble.Options) {
+		o.FS = fs
+		if small {
+			o.MemTableSize = 32 << 10
+			o.MemTableStopWritesThreshold = 4
+		}
+	}
 	defer func() { pebbledb.VerifOptionsHook = nil }()
 	return pebbledb.NewPebbleScanner(path, pebbledb.PebbleScannerOptions{})
 }
@@ -302,10 +313,22 @@ func writerOp(db *pebbledb.PebbleScanner, r *rand.Rand, c, i int, cfg histCfg, n
 		add(rec{Client: c, Kind: "rebuild", Call: t0, Ret: t1})
 	default:
 		t0 := now()
-		if r.Intn(2) == 0 {
+		switch r.Intn(4) {
+		case 0:
 			db.SetThreshold([]float64{0.5, 0.75, 1.0}[r.Intn(3)])
-		} else {
+		case 1:
 			db.SetEntropyTolerance([]float64{0.5, 2}[r.Intn(2)])
+		case 2:
+			// maintenance that changes no content: memtable flush (tombstones meet the values
+			// they cover) ...
+			if err := db.Checkpoint(); err != nil {
+				report("op-result/Checkpoint", err.Error(), nil)
+			}
+		default:
+			// ... and a full manual compaction
+			if err := db.Compact(); err != nil {
+				report("op-result/Compact", err.Error(), nil)
+			}
 		}
 		add(rec{Client: c, Kind: "cfg", Call: t0, Ret: now()})
 	}
